@@ -198,16 +198,18 @@ class DtdMapper:
             restrictions = cls.build_restrictions(content.occur, **kwargs)
             cls.build_element(target, content.name, restrictions)
         elif content_type == DtdContentType.SEQ:
-            cls.build_content_tree(target, content, **kwargs)
+            params = kwargs
+            if content.occur != DtdContentOccur.ONCE:
+                params = {**kwargs, **cls.merge_occurs(content.occur, kwargs)}
+                if params["max_occurs"] > 1 and "choice" not in params:
+                    params.setdefault("sequence", id(content))
+
+            cls.build_content_tree(target, content, **params)
         elif content_type == DtdContentType.OR:
-            params = cls.build_occurs(content.occur)
-            params.update(
-                {
-                    "choice": id(content),
-                    "min_occurs": 0,
-                }
-            )
-            params.update(**kwargs)
+            params = {**kwargs, **cls.merge_occurs(content.occur, kwargs)}
+            params["choice"] = kwargs.get("choice", id(content))
+            # Inside another choice group the outer group decides
+            params["min_occurs"] = kwargs.get("min_occurs", 0) if "choice" in kwargs else 0
             cls.build_content_tree(target, content, **params)
         else:  # content_type == DtdContentType.PCDATA:
             # (#PCDATA)* is still a single text value
@@ -268,10 +270,28 @@ class DtdMapper:
         Returns:
             The mapped restrictions instance.
         """
-        params = cls.build_occurs(occur)
-        params.update(kwargs)
+        params = {**kwargs, **cls.merge_occurs(occur, kwargs)}
 
         return Restrictions(**params)
+
+    @classmethod
+    def merge_occurs(cls, occur: DtdContentOccur, outer: dict) -> dict:
+        """Multiply the occurrences with the ones of the enclosing groups.
+
+        Args:
+            occur: The dtd content occur instance.
+            outer: The restriction arguments of the enclosing groups
+
+        Returns:
+            The effective min/max occurs restrictions dictionary
+        """
+        params = cls.build_occurs(occur)
+        min_occurs = params["min_occurs"] * outer.get("min_occurs", 1)
+        max_occurs = params["max_occurs"] * outer.get("max_occurs", 1)
+        return {
+            "min_occurs": min_occurs,
+            "max_occurs": min(max_occurs, sys.maxsize),
+        }
 
     @classmethod
     def build_element(cls, target: Class, name: str, restrictions: Restrictions):
